@@ -1,5 +1,366 @@
-//! Controlled thread schedules (filled in below).
-pub fn main(_args: &[String]) -> i32 {
-    eprintln!("sched: not built yet");
-    2
+//! Controlled thread schedules (DESIGN.md 4.6).
+//!
+//!   sched --in <jobs.ndjson> --out <trace.ndjson> --dir <scratch>
+//!
+//! A job = {"id", "cfg", "pre": [ops], "threads": [[ops], ...], "schedule": [tid, ...], "seed": n}.
+//! `pre` runs sequentially, then one OS thread per op list runs against the shared instance. Every
+//! cfg(walrus_verif) `sched_point` in the engine, and every operation start, is a gate: a thread
+//! stops there until the controller grants it. The controller follows `schedule` (thread ids) as
+//! far as it is realizable and a seeded random choice afterwards. A granted thread that does not
+//! reach its next gate within a short time is blocked on a lock held by a parked thread; the
+//! controller then lets another thread run. The recorded call/ret history (global order) is checked
+//! for linearizability by TLC (Trace_WalrusConc).
+
+use crate::exec::{self, Cfg};
+use crate::payload;
+use serde::Deserialize;
+use serde_json::{json, Value};
+use std::cell::Cell;
+use std::collections::{HashMap, HashSet};
+use std::io::Write;
+use std::panic::{catch_unwind, AssertUnwindSafe};
+use std::path::Path;
+use std::sync::{Arc, Condvar, Mutex};
+use std::time::{Duration, Instant};
+use walrus_rust::wal::verif;
+use walrus_rust::Walrus;
+
+#[derive(Deserialize, Clone)]
+struct Job {
+    id: String,
+    cfg: Cfg,
+    #[serde(default)]
+    pre: Vec<Value>,
+    threads: Vec<Vec<Value>>,
+    #[serde(default)]
+    schedule: Vec<usize>,
+    #[serde(default)]
+    seed: u64,
+}
+
+#[derive(Default)]
+struct State {
+    waiting: HashMap<usize, &'static str>,
+    granted: Option<usize>,
+    finished: HashSet<usize>,
+    active: bool,
+    steps: Vec<(usize, String)>,
+}
+
+struct Ctl {
+    st: Mutex<State>,
+    cv: Condvar,
+}
+
+thread_local! {
+    static TID: Cell<usize> = const { Cell::new(usize::MAX) };
+}
+
+fn gate(ctl: &Ctl, label: &'static str) {
+    let tid = TID.with(|t| t.get());
+    if tid == usize::MAX {
+        return; // not a worker thread (controller, background threads)
+    }
+    let mut st = ctl.st.lock().unwrap();
+    if !st.active {
+        return;
+    }
+    st.waiting.insert(tid, label);
+    ctl.cv.notify_all();
+    while st.granted != Some(tid) {
+        if !st.active {
+            st.waiting.remove(&tid);
+            return;
+        }
+        st = ctl.cv.wait(st).unwrap();
+    }
+    st.granted = None;
+    st.waiting.remove(&tid);
+    st.steps.push((tid, label.to_string()));
+    ctl.cv.notify_all();
+}
+
+struct Hist {
+    lines: Mutex<Vec<String>>,
+}
+
+fn pairs_of(entries: &[Vec<u8>]) -> (Vec<Value>, bool) {
+    let mut foreign = false;
+    let v = entries
+        .iter()
+        .map(|d| match payload::parse(d) {
+            Some(k) => json!([k, d.len()]),
+            None => {
+                foreign = true;
+                json!([-9999, d.len()])
+            }
+        })
+        .collect();
+    (v, foreign)
+}
+
+/// Executes one op; returns the fields of the `ret` event.
+fn do_op(w: &Walrus, op: &Value) -> Value {
+    let kind = op["op"].as_str().unwrap_or("");
+    let t = op["t"].as_str().unwrap_or("a").to_string();
+    match kind {
+        "append" => {
+            let id = op["id"].as_i64().unwrap();
+            let sz = op["size"].as_u64().unwrap() as usize;
+            let buf = payload::gen(id, sz);
+            match catch_unwind(AssertUnwindSafe(|| w.append_for_topic(&t, &buf))) {
+                Ok(Ok(())) => json!({"res":"ok"}),
+                Ok(Err(e)) => json!({"res":"err","kind":format!("{:?}", e.kind())}),
+                Err(_) => json!({"res":"panic"}),
+            }
+        }
+        "batch" => {
+            let bufs: Vec<Vec<u8>> = op["es"].as_array().unwrap().iter().map(|e| payload::gen(e[0].as_i64().unwrap(), e[1].as_u64().unwrap() as usize)).collect();
+            let refs: Vec<&[u8]> = bufs.iter().map(|b| b.as_slice()).collect();
+            match catch_unwind(AssertUnwindSafe(|| w.batch_append_for_topic(&t, &refs))) {
+                Ok(Ok(())) => json!({"res":"ok"}),
+                Ok(Err(e)) => json!({"res":"err","kind":format!("{:?}", e.kind())}),
+                Err(_) => json!({"res":"panic"}),
+            }
+        }
+        "read" => match catch_unwind(AssertUnwindSafe(|| w.read_next(&t, true))) {
+            Ok(Ok(o)) => {
+                let es: Vec<Vec<u8>> = o.into_iter().map(|e| e.data).collect();
+                let (p, f) = pairs_of(&es);
+                json!({"st": if f {"foreign"} else {"ok"}, "res": p})
+            }
+            Ok(Err(e)) => json!({"st":"err","kind":format!("{:?}", e.kind()),"res":[]}),
+            Err(_) => json!({"st":"panic","res":[]}),
+        },
+        "bread" => {
+            let budget = op["budget"].as_i64().unwrap_or(-1);
+            let mb = if budget < 0 { usize::MAX } else { budget as usize };
+            match catch_unwind(AssertUnwindSafe(|| w.batch_read_for_topic(&t, mb, true, None))) {
+                Ok(Ok(v)) => {
+                    let es: Vec<Vec<u8>> = v.into_iter().map(|e| e.data).collect();
+                    let (p, f) = pairs_of(&es);
+                    json!({"st": if f {"foreign"} else {"ok"}, "res": p})
+                }
+                Ok(Err(e)) => json!({"st":"err","kind":format!("{:?}", e.kind()),"res":[]}),
+                Err(_) => json!({"st":"panic","res":[]}),
+            }
+        }
+        _ => json!({}),
+    }
+}
+
+fn call_event(thr: usize, cid: usize, op: &Value) -> Value {
+    let kind = op["op"].as_str().unwrap_or("");
+    let t = op["t"].as_str().unwrap_or("a");
+    let mut e = json!({"ev":"call","thr":thr,"id":cid,"op":kind,"t":t});
+    let o = e.as_object_mut().unwrap();
+    match kind {
+        "append" => {
+            let id = op["id"].as_i64().unwrap();
+            let sz = op["size"].as_u64().unwrap() as usize;
+            o.insert("es".into(), json!([[payload::key_of(id, sz), sz]]));
+        }
+        "batch" => {
+            let es: Vec<Value> = op["es"].as_array().unwrap().iter().map(|x| {
+                let id = x[0].as_i64().unwrap();
+                let sz = x[1].as_u64().unwrap() as usize;
+                json!([payload::key_of(id, sz), sz])
+            }).collect();
+            o.insert("es".into(), json!(es));
+        }
+        "bread" => {
+            o.insert("budget".into(), json!(op["budget"].as_i64().unwrap_or(-1)));
+        }
+        _ => {}
+    }
+    e
+}
+
+fn run_job(job: &Job, base: &Path, out: &mut Vec<String>) {
+    let g = exec::geometry();
+    out.push(json!({"ev":"reset","g":job.id,"mode":job.cfg.mode,"pe":job.cfg.pe.max(1),"mb":g.max_batch,
+                    "backend":job.cfg.backend,"geom": if g.tiny {"tiny"} else {"real"}}).to_string());
+    let mut run = exec::Run::new(&job.id, &job.cfg, base);
+    if run.open_inst(0).is_err() {
+        out.push(json!({"ev":"died","st":"died","what":"open failed"}).to_string());
+        return;
+    }
+    for op in job.pre.iter() {
+        run.exec_op(op);
+    }
+    out.extend(run.lines.drain(..).filter(|l| !l.contains("\"ev\":\"counts\"")));
+    let w: Arc<Walrus> = Arc::new(run.insts[0].take().unwrap());
+    let ctl = Arc::new(Ctl { st: Mutex::new(State { active: true, ..Default::default() }), cv: Condvar::new() });
+    let hist = Arc::new(Hist { lines: Mutex::new(Vec::new()) });
+    {
+        let c2 = ctl.clone();
+        verif::set_sched_hook(Some(Box::new(move |label| gate(&c2, label))));
+    }
+    let n = job.threads.len();
+    let mut handles = Vec::new();
+    for (tid, ops) in job.threads.iter().cloned().enumerate() {
+        let w = w.clone();
+        let ctl = ctl.clone();
+        let hist = hist.clone();
+        handles.push(std::thread::spawn(move || {
+            TID.with(|t| t.set(tid));
+            for (k, op) in ops.iter().enumerate() {
+                gate(&ctl, "op_start");
+                let cid = tid * 100 + k;
+                hist.lines.lock().unwrap().push(call_event(tid, cid, op).to_string());
+                let r = do_op(&w, op);
+                let mut e = json!({"ev":"ret","thr":tid,"id":cid});
+                for (kk, vv) in r.as_object().unwrap() {
+                    e.as_object_mut().unwrap().insert(kk.clone(), vv.clone());
+                }
+                hist.lines.lock().unwrap().push(e.to_string());
+            }
+            let mut st = ctl.st.lock().unwrap();
+            st.finished.insert(tid);
+            ctl.cv.notify_all();
+        }));
+    }
+    // controller
+    let mut sched_pos = 0usize;
+    let mut rng = job.seed.wrapping_mul(0x9E37_79B9_7F4A_7C15) | 1;
+    let mut unrealizable = 0u64;
+    let started = Instant::now();
+    let mut running: HashSet<usize> = HashSet::new(); // granted, not yet back at a gate (maybe blocked)
+    loop {
+        let mut st = ctl.st.lock().unwrap();
+        if st.finished.len() == n {
+            break;
+        }
+        // threads back at a gate are no longer "running"
+        running.retain(|t| !st.waiting.contains_key(t) && !st.finished.contains(t));
+        let mut ready: Vec<usize> = st.waiting.keys().cloned().collect();
+        ready.sort();
+        if ready.is_empty() || st.granted.is_some() {
+            let (g2, _) = ctl.cv.wait_timeout(st, Duration::from_millis(5)).unwrap();
+            drop(g2);
+            if started.elapsed() > Duration::from_secs(25) {
+                break;
+            }
+            continue;
+        }
+        // wait a little for running threads to either arrive at a gate or prove blocked
+        if !running.is_empty() {
+            let deadline = Instant::now() + Duration::from_millis(15);
+            let mut st2 = st;
+            loop {
+                running.retain(|t| !st2.waiting.contains_key(t) && !st2.finished.contains(t));
+                if running.is_empty() || Instant::now() >= deadline {
+                    break;
+                }
+                let (g2, _) = ctl.cv.wait_timeout(st2, Duration::from_millis(2)).unwrap();
+                st2 = g2;
+            }
+            st = st2;
+            ready = st.waiting.keys().cloned().collect();
+            ready.sort();
+            if ready.is_empty() {
+                continue;
+            }
+        }
+        let mut pick = None;
+        while sched_pos < job.schedule.len() {
+            let want = job.schedule[sched_pos];
+            sched_pos += 1;
+            if ready.contains(&want) {
+                pick = Some(want);
+                break;
+            }
+            unrealizable += 1;
+        }
+        let tid = match pick {
+            Some(t) => t,
+            None => {
+                rng ^= rng << 13;
+                rng ^= rng >> 7;
+                rng ^= rng << 17;
+                ready[(rng % ready.len() as u64) as usize]
+            }
+        };
+        st.granted = Some(tid);
+        running.insert(tid);
+        ctl.cv.notify_all();
+        drop(st);
+    }
+    let hung = {
+        let mut st = ctl.st.lock().unwrap();
+        let hung = st.finished.len() != n;
+        st.active = false;
+        ctl.cv.notify_all();
+        hung
+    };
+    verif::set_sched_hook(None);
+    if hung {
+        out.extend(hist.lines.lock().unwrap().drain(..));
+        out.push(json!({"ev":"hang","st":"hang","what":"threads did not finish"}).to_string());
+        // leak the threads; the process is restarted by the orchestrator
+        std::mem::forget(handles);
+        return;
+    }
+    for h in handles {
+        let _ = h.join();
+    }
+    out.extend(hist.lines.lock().unwrap().drain(..));
+    let steps: Vec<Value> = ctl.st.lock().unwrap().steps.iter().map(|(t, l)| json!([t, l])).collect();
+    out.push(json!({"ev":"note","what":"schedule","unrealizable":unrealizable,"steps":steps.len(),"trace":steps}).to_string());
+    // quiescent drain by one thread
+    let w = match Arc::try_unwrap(w) {
+        Ok(w) => w,
+        Err(_) => return,
+    };
+    run.insts[0] = Some(w);
+    let topics = run.cfg.topics.clone();
+    for t in topics.iter() {
+        for _ in 0..40 {
+            let before = run.lines.len();
+            run.exec_op(&json!({"op":"bread","t":t,"budget":-1,"ckpt":true,"off":-1}));
+            if run.lines[before..].iter().any(|l| l.contains("\"ev\":\"bread\"") && l.contains("\"res\":[]")) {
+                break;
+            }
+        }
+        run.exec_op(&json!({"op":"read","t":t,"ckpt":true}));
+    }
+    out.extend(run.lines.drain(..).filter(|l| !l.contains("\"ev\":\"counts\"")));
+}
+
+pub fn main(args: &[String]) -> i32 {
+    let get = |n: &str| args.iter().position(|a| a == n).and_then(|i| args.get(i + 1).cloned());
+    let inp = get("--in").expect("--in");
+    let outp = get("--out").expect("--out");
+    let dir = get("--dir").expect("--dir");
+    let start: usize = get("--start").map(|s| s.parse().unwrap()).unwrap_or(0);
+    let text = std::fs::read_to_string(&inp).expect("read jobs");
+    let jobs: Vec<Job> = text.lines().filter(|l| !l.trim().is_empty()).map(|l| serde_json::from_str(l).expect("job json")).collect();
+    let mut first = true;
+    for (n, job) in jobs.iter().enumerate().skip(start) {
+        if first {
+            exec::set_backend(&job.cfg);
+            first = false;
+        }
+        let base = Path::new(&dir).join(format!("s{}", n));
+        let _ = std::fs::remove_dir_all(&base);
+        std::fs::create_dir_all(&base).unwrap();
+        let mut out: Vec<String> = Vec::new();
+        out.push(json!({"ev":"note","what":"begin","n":n}).to_string());
+        run_job(job, &base, &mut out);
+        // the reset event must come first in the group
+        let reset_ix = out.iter().position(|l| l.contains("\"ev\":\"reset\"")).unwrap_or(0);
+        let r = out.remove(reset_ix);
+        out.insert(0, r);
+        let mut f = std::fs::OpenOptions::new().create(true).append(true).open(&outp).expect("open out");
+        for l in out.iter() {
+            writeln!(f, "{}", l).unwrap();
+        }
+        let hung = out.iter().any(|l| l.contains("\"ev\":\"hang\""));
+        let _ = std::fs::remove_dir_all(&base);
+        if hung {
+            std::io::stdout().flush().ok();
+            unsafe { libc::_exit(88) };
+        }
+    }
+    0
 }
